@@ -1787,6 +1787,31 @@ fn first_attempt_seed(builder_seed: u64) -> Option<u64> {
     }
 }
 
+/// a builder seed whose FIRST attempt over the keys `0..n` (usize, `FuseLge3Shards`, 2-word
+/// signatures, default eps) has a largest shard above 1.01 x the average, so that `try_seed` returns
+/// the transient `MaxShardTooBig` and the build loop must rewind and retry
+fn seed_with_unbalanced_first_attempt(n: usize, from: u64) -> Option<u64> {
+    let mut e = FuseLge3Shards::default();
+    <FuseLge3Shards as ShardEdge<[u64; 2], 3>>::set_up_shards(&mut e, n, 0.001);
+    let shards = <FuseLge3Shards as ShardEdge<[u64; 2], 3>>::num_shards(&e);
+    if shards < 2 {
+        return None;
+    }
+    for bs in from..from + 400 {
+        let seed = first_attempt_seed(bs)?;
+        let mut cnt = vec![0usize; shards];
+        for i in 0..n {
+            let sig: [u64; 2] = <usize as ToSig<[u64; 2]>>::to_sig(&i, seed);
+            cnt[<FuseLge3Shards as ShardEdge<[u64; 2], 3>>::shard(&e, sig)] += 1;
+        }
+        let mx = *cnt.iter().max().unwrap();
+        if mx as f64 > 1.01 * n as f64 / shards as f64 {
+            return Some(bs);
+        }
+    }
+    None
+}
+
 /// `dd` pair that puts the two copies of a duplicated key at positions `rank` and `rank + 1` of the
 /// signature-sorted order of the first attempt (keys `Ks::Seq(0)` of type usize, single shard):
 /// the key with the largest signature is overwritten with the key of sorted rank `rank`
@@ -2418,6 +2443,30 @@ pub fn run(ctx: &mut Ctx) {
                     // equal values for the two copies also in the function case
                     s.vs = Vs::Zero;
                     ctx.stat("dup_at_sorted_rank");
+                    run_case(ctx, &s, &o);
+                }
+            }
+        }
+        // a transient MaxShardTooBig on the first attempt (sharded regime, unbalanced first seed):
+        // the loop must rewind both lenders before the next attempt
+        {
+            let plan: Vec<(usize, Combo, bool)> = if thorough {
+                vec![
+                    (200_000, default_func, false),
+                    (200_000, combo_of("filter", "vec", "usize", "8", "box", 2, "shards"), true),
+                    (400_000, box_func, false),
+                    (150_000, default_func, true),
+                ]
+            } else {
+                vec![(200_000, default_func, false)]
+            };
+            for (j, (n, c, off)) in plan.into_iter().enumerate() {
+                if let Some(bs) = seed_with_unbalanced_first_attempt(n, 5000 + 1000 * j as u64) {
+                    let mut s = base_spec(&c, n);
+                    s.seed = bs;
+                    s.off = off;
+                    s.vs = Vs::Rnd(j as u64 + 3);
+                    ctx.stat("retry_after_max_shard_too_big");
                     run_case(ctx, &s, &o);
                 }
             }
